@@ -110,7 +110,7 @@ def _compile_obligation(ctx, d, fname):
     thms = re.findall(r"^(?:Theorem|Corollary)\s+(\w+)", text, re.M)
     rc, out = V.coqc(fname, d, extra=["-R", d, ""])
     complaints = []
-    for blk in re.split(r"(?m)^(?:cta_|wait_|concurrency_)?complaints =", out)[1:]:
+    for blk in re.split(r"(?m)^(?:cta_|wait_|concurrency_|registry_)?complaints =", out)[1:]:
         body = blk.split("\n     :", 1)[0]
         complaints += [(a, k, s.replace('""', '"')) for a, k, s in _TRIPLE.findall(re.sub(r"\s+", " ", body))]
     complaints = list(dict.fromkeys(complaints))
@@ -682,6 +682,7 @@ def _stress(ctx, part, info):
                "pipeline-outcome-depends-on-the-other-pipelines-of-the-shared-event" if "this pipeline's sink" in x or "did not report sink" in x or "rejects every event holds" in x else
                "rebound-file-sinks-not-all-reopened" if "rebind-reopen:" in x else
                "cloudevents-unsigned-after-signer-installed" if "late signer:" in x else
+               "sink-shows-another-pipeline's-formatting-of-the-shared-event" if "formatting of the shared event:" in x else
                "file-sink-loses-or-duplicates-acknowledged-events" if "acknowledged events" in x else
                "sink-output-not-a-sequence-of-JSON-documents")
         if cls in seen_classes:
@@ -802,7 +803,8 @@ def _conch_cases(ctx, part):
     d = os.path.join(ctx.work, "conch-out")
     os.makedirs(d, exist_ok=True)
     args = [binp, "-out", d, "-cases", "300" if ctx.tier == "quick" else "12000", "-ops", "12" if ctx.tier == "quick" else "14",
-            "-sends", "8" if ctx.tier == "quick" else "12", "-fresh", "1500" if ctx.tier == "quick" else "20000", "-rebind", "150" if ctx.tier == "quick" else "3000"]
+            "-sends", "8" if ctx.tier == "quick" else "12", "-fresh", "1500" if ctx.tier == "quick" else "20000", "-rebind", "150" if ctx.tier == "quick" else "3000",
+            "-onepipe", "1500" if ctx.tier == "quick" else "20000"]
     corpus = os.path.join(V.VERIF, "corpus", "C04", "conch.jsonl")
     if os.path.exists(corpus):
         args += ["-corpus", corpus]
@@ -936,7 +938,7 @@ def check_C04(ctx):
 
         def evidence(group):
             ev = race_ev(group)
-            if ev is None and any(k == "KCheckThenAct" for _, k, _ in group["members"]) and getattr(ctx, "_conch_failing", None):
+            if ev is None and any(k == "KCheckThenAct" or subj.endswith("roots!") for _, k, subj in group["members"]) and getattr(ctx, "_conch_failing", None):
                 ev = ctx._conch_failing[0]      # an atomicity defect shows as a delivery / linearizability mismatch, not as a race
             if ev is None and group["class"] in ("callback-under-lock", "protocol") and getattr(ctx, "_hang", None):
                 ev = ctx._hang                  # a lock-protocol defect shows as a history that never finishes
